@@ -17,23 +17,29 @@ var compileCmd = &cobra.Command{
 	Run:   compile,
 }
 
-func compile(cmd *cobra.Command, args []string) {
-	verifierOnlyCircuitData := variables.DeserializeVerifierOnlyCircuitData(
-		types.ReadVerifierOnlyCircuitData(fBaseDir + "/verifier_only_circuit_data.json"),
-	)
+// Builds the wrapper circuit to compile from the plonky2 circuit files in baseDir, with the inner
+// circuit's verifier key fixed to the one in verifier_only_circuit_data.json.
+func newFixedCircuit(baseDir string) verifier.CircuitFixed {
+	verifierOnlyCircuitDataRaw := types.ReadVerifierOnlyCircuitData(baseDir + "/verifier_only_circuit_data.json")
+	verifierOnlyCircuitData := variables.DeserializeVerifierOnlyCircuitData(verifierOnlyCircuitDataRaw)
 	proofWithPis, _ := variables.DeserializeProofWithPublicInputs(
-		types.ReadProofWithPublicInputs(fBaseDir + "/proof_with_public_inputs.json"),
+		types.ReadProofWithPublicInputs(baseDir + "/proof_with_public_inputs.json"),
 	)
-	
-	commonCircuitData := types.ReadCommonCircuitData(fBaseDir + "/common_circuit_data.json")
 
-	circuit := verifier.CircuitFixed{
+	commonCircuitData := types.ReadCommonCircuitData(baseDir + "/common_circuit_data.json")
+
+	return verifier.CircuitFixed{
 		ProofWithPis: proofWithPis,
 		PublicInputs: [4]frontend.Variable{new(frontend.Variable), new(frontend.Variable),
 			new(frontend.Variable), new(frontend.Variable)},
 		VerifierData:      verifierOnlyCircuitData,
 		CommonCircuitData: commonCircuitData,
+		FixedVerifierData: &verifierOnlyCircuitDataRaw,
 	}
+}
+
+func compile(cmd *cobra.Command, args []string) {
+	circuit := newFixedCircuit(fBaseDir)
 	var builder frontend.NewBuilder = r1cs.NewBuilder
 	r1cs, _ := frontend.Compile(ecc.BN254.ScalarField(), builder, &circuit)
 	
